@@ -26,12 +26,16 @@ ASSUMPTIONS = [
 
 
 def config():
-    return st.fixed_dictionaries(dict(surfaces=S.aero_config(max_surf=3), flow=S.flow(beta=True, rot=True), units=S.user_units()))
+    # reverse[k]: the k-th mesh is handed over with its spanwise index running the other way (y decreasing with the index;
+    # the vortex-lattice states treat all four layouts of a half mesh - either side, either direction - alike)
+    return st.fixed_dictionaries(dict(surfaces=S.aero_config(max_surf=3), flow=S.flow(beta=True, rot=True), units=S.user_units(),
+                                      reverse=st.lists(st.sampled_from([False, False, True]), min_size=3, max_size=3)))
 
 
 def config_big():
     return st.fixed_dictionaries(
-        dict(surfaces=S.aero_config(max_surf=3, nx=(2, 6), nyh=(2, 6), max_panels=110), flow=S.flow(beta=True, rot=True))
+        dict(surfaces=S.aero_config(max_surf=3, nx=(2, 6), nyh=(2, 6), max_panels=110), flow=S.flow(beta=True, rot=True),
+             reverse=st.lists(st.sampled_from([False, False, True]), min_size=3, max_size=3))
     )
 
 
@@ -57,6 +61,10 @@ def verdict(desc):
     fl = desc["flow"]
     meshes = place_surfaces(desc["surfaces"], fl["alpha"])
     syms = [symmetry_of(s["mesh"]) for s in desc["surfaces"]]
+    rev = list(desc.get("reverse") or [])
+    if any(rev[: len(meshes)]):
+        meshes = [np.ascontiguousarray(m[:, ::-1, :]) if k < len(rev) and rev[k] else m for k, m in enumerate(meshes)]
+        out.label("reversed_spanwise_index")
     surfaces = [aero_surface("s%d" % k, m, syms[k]) for k, m in enumerate(meshes)]
     prob = aero_direct(surfaces, fl, units=desc.get("units"))
     prob.run_model()
